@@ -114,6 +114,6 @@ def runC (pol : Policy) : CS → List OpC → CS × List Snap
 
 /-! ### the order of `Reconcile` (tied to the source by Ties/C17.lean): the guard precedes doMigrate, `assume` is a plain
 call AFTER doMigrate with the object doMigrate worked on -/
-def reconcileOrder : List String := ["Get", "isNewOrSameObj", "doMigrate", "assume(job)"]
+def reconcileCallOrder : List String := ["Get", "isNewOrSameObj", "doMigrate", "assume(job)"]
 
 end KoordVerif.C17
